@@ -36,7 +36,8 @@ Definition check_codes (c : case) : list Z :=
   (* input sanity (what the theorems assume of the input tables) *)
   mk 1 (tri_ok_b faces && oriented_b faces && faces_connected_b faces && edges_table_ok_b faces edges
         && table_ok_b faces edges && primal_connected_b edges
-        && closed_set_b edges (fun _ => false) (boundary_edges faces edges)) ++
+        && closed_set_b edges (fun _ => false) (boundary_edges faces edges)
+        && surface_ok_b faces edges && subsetZ (c_cut c) (zrange (zlen edges))) ++
   (* tables computed by the model = tables of the real mesh *)
   mk 2 (zl_eqb (interior_edges faces edges) (c_interior c) && zl_eqb (boundary_edges faces edges) (c_boundary c)) ++
   (* the dual tree of the implementation is a spanning tree of the dual graph (certificate: ranks) *)
